@@ -85,6 +85,8 @@ type Metastore struct {
 	n      int
 	Faults map[int]string // call index -> fault kind
 	Delays map[int]time.Duration // call index -> (virtual) latency before the call executes
+	// ReadFaultIn > 0 makes the n-th read (Load/LoadLatest) from now fail with a transient error; writes are unaffected
+	ReadFaultIn int
 	Latency func(op string) time.Duration // optional random latency source
 	// Gate, when set, is called before every call is executed (outside the monitor's mutex);
 	// a scheduler blocks here to decide which pending call goes next.
@@ -113,6 +115,12 @@ func (m *Metastore) begin(op, id string, created int64, in *appencryption.Envelo
 	c.Idx = m.n
 	m.n++
 	f := m.Faults[c.Idx]
+	if op != "store" && m.ReadFaultIn > 0 {
+		m.ReadFaultIn--
+		if m.ReadFaultIn == 0 {
+			f = FaultErr
+		}
+	}
 	d := m.Delays[c.Idx]
 	m.counts[op]++
 	m.counts[op+":"+id]++
